@@ -16,7 +16,8 @@ NCPU = int(os.environ.get('VERIF_JOBS', '16'))
 
 ASAN_FLAGS = ['-g', '-O1', '-fsanitize=address,undefined', '-fno-sanitize-recover=undefined', '-fno-omit-frame-pointer']
 ASAN_ENV = {'ASAN_OPTIONS': 'detect_leaks=0:abort_on_error=0:allocator_may_return_null=1:handle_abort=1:exitcode=86',
-            'UBSAN_OPTIONS': 'print_stacktrace=1:halt_on_error=1:exitcode=86'}
+            'UBSAN_OPTIONS': 'print_stacktrace=1:halt_on_error=1:exitcode=86',
+            'TSAN_OPTIONS': 'halt_on_error=1 exitcode=66 second_deadlock_stack=1'}
 
 
 def sha(*parts):
